@@ -527,3 +527,148 @@ def oracle_c08(line, case, stats, allc, lines):
 def oracle_none(line, case, stats, allc, lines):
     stats['cases'] = stats.get('cases', 0) + 1
     return []
+
+# ------------------------------------------------------------------------------------------------
+# C04: the expected match sets come from the extracted Coq reference semantics (coq/spec/CssSem.v), run by
+# `model_runner spec`; the oracle compares them with the element-handler invocations of the implementation.
+SPEC = {}          # case id -> {loc: [selector indices]}   (filled by prepare_c04)
+SPEC_FLAT = {}     # same, for the selectors rewritten the way Ast::add_selector flattens negations
+
+def parse_struct(s):
+    """selector structure string -> list of complexes; complex = [compound, (comb, compound)...]; compound = [simple...];
+    simple = ('X', [compound...]) or ('S', text)"""
+    pos = [0]
+    def peek(): return s[pos[0]] if pos[0] < len(s) else '$'
+    def simple():
+        c = peek(); st = pos[0]; pos[0] += 1
+        if c == 'X':
+            assert peek() == '('; pos[0] += 1
+            args = [compound()]
+            while peek() == '!': pos[0] += 1; args.append(compound())
+            assert peek() == ')'; pos[0] += 1
+            return ('X', args)
+        while peek() not in '.>_|!)$': pos[0] += 1
+        return ('S', s[st:pos[0]])
+    def compound():
+        out = [simple()]
+        while peek() == '.': pos[0] += 1; out.append(simple())
+        return out
+    def complex_():
+        out = [compound()]
+        while peek() in '>_':
+            cb = peek(); pos[0] += 1; out.append((cb, compound()))
+        return out
+    sel = [complex_()]
+    while peek() == '|': pos[0] += 1; sel.append(complex_())
+    return sel
+
+def flatten_compound(comp):
+    """what Predicate::add_selector_components does: every simple, at any negation depth, becomes one conjunct with a polarity.
+    returns (flattened compound as structure text, exact?) -- exact iff the conjunction is equivalent to the CSS meaning"""
+    conj, exact = [], [True]
+    def walk(c, neg):
+        for kind, v in c:
+            if kind == 'X':
+                child_neg = not neg
+                if child_neg and any(len(a) > 1 for a in v): exact[0] = False      # not(s1 and s2) is a disjunction
+                if not child_neg and len(v) > 1: exact[0] = False                 # not(not(a, b)) is a disjunction
+                for a in v: walk(a, child_neg)
+            else:
+                conj.append((v, neg))
+    walk(comp, False)
+    return '.'.join(('X(%s)' % v if neg else v) for v, neg in conj), exact[0]
+
+def flatten_struct(st):
+    out, exact = [], True
+    for cx in parse_struct(st):
+        parts = []
+        for item in cx:
+            if isinstance(item, tuple):
+                f, e = flatten_compound(item[1]); parts.append(item[0] + f)
+            else:
+                f, e = flatten_compound(item); parts.append(f)
+            exact = exact and e
+        out.append(''.join(parts))
+    return '|'.join(out), exact
+
+def c04_applicable(line):
+    d = kv(line)
+    if d.get('strict', '0') == '1' or 'fail' in d or 'mem' in d or 'nomodel' in d: return False
+    for t in line.split(' '):
+        if t.startswith('sel='):
+            el = t[4:].split('~')[2]
+            if re.search(r'(^|,)(rm|rp:|si:|oe:)', el): return False      # content removal hides descendants from matching by design
+    return True
+
+def prepare_c04(cases_path, runner, build):
+    import subprocess, os
+    lines = [l.rstrip('\n') for l in open(cases_path) if l.startswith('L2 ') and c04_applicable(l)]
+    flat = []
+    for l in lines:
+        toks = []
+        for t in l.split(' '):
+            if t.startswith('sel='):
+                p = t[4:].split('~'); p[1] = flatten_struct(p[1])[0]; t = 'sel=' + '~'.join(p)
+            toks.append(t)
+        flat.append(' '.join(toks))
+    for src, dst in ((lines, SPEC), (flat, SPEC_FLAT)):
+        dst.clear()
+        out = subprocess.run([runner, 'spec'], input='\n'.join(src) + '\n', capture_output=True, text=True, timeout=3000).stdout
+        cur = None
+        for ln in out.splitlines():
+            if ln.startswith('C '): cur = {}; dst[ln[2:]] = cur
+            elif ln.startswith('M ') and cur is not None:
+                f = ln.split(' '); cur[int(f[1])] = [int(x) for x in f[2:]]
+            elif ln.startswith('X ') and cur is not None: cur['error'] = ln
+
+def c04_observed(line, case):
+    """start-tag location -> sorted selector indices whose element handler ran (until the first failing call)"""
+    sels = [t[4:].split('~') for t in line.split(' ') if t.startswith('sel=')]
+    el_to_sel = [i for i, p in enumerate(sels) if p[2] != '-']
+    got = {}
+    complete = True
+    for c in case['calls']:
+        for head, tok in zip(c.get('handlers', []), c['events']):
+            f = head.split(' ')
+            if f[0] != 'el' or not tok.startswith('S '): continue
+            a = int(tok.split(' ')[1].split('..')[0])
+            got.setdefault(a, []).append(el_to_sel[int(f[1])])
+        if obslog.norm_res(c['res']) != 'ok': complete = False; break
+    return got, el_to_sel, complete
+
+def oracle_c04(line, case, stats, allc=None, lines=None):
+    cid = case['id']
+    if cid not in SPEC or 'error' in SPEC[cid]: return []
+    got, el_to_sel, complete = c04_observed(line, case)
+    if not complete or any(x.startswith('X ') for x in case.get('extra', [])): return []
+    stats['cases'] = stats.get('cases', 0) + 1
+    errs = []
+    watch = set(el_to_sel)
+    for loc, ids in sorted(SPEC[cid].items()):
+        exp = [i for i in ids if i in watch]
+        obs = sorted(got.get(loc, []))
+        stats['start_tags'] = stats.get('start_tags', 0) + 1
+        stats['matches'] = stats.get('matches', 0) + len(exp)
+        if obs != exp:
+            bad = sorted(set(obs) ^ set(exp))
+            errs.append('start tag at %d: handlers of selectors %s ran, CSS semantics says %s (differs for selector %d)' % (loc, obs, exp, bad[0]))
+    for loc in got:
+        if loc not in SPEC[cid]: errs.append('handler ran for a start tag at %d that the reference tag stream does not contain' % loc)
+    return errs[:3]
+
+def classify_c04(line, case, msg):
+    """known finding NotCompoundArg: the differing selector has a :not() whose flattening into a conjunction is not exact,
+    AND the implementation's answer is exactly the flattened conjunction's (anything else is a new violation)"""
+    m = re.search(r'differs for selector (\d+)', msg)
+    if not m: return None
+    k = int(m.group(1))
+    sels = [t[4:].split('~') for t in line.split(' ') if t.startswith('sel=')]
+    _, exact = flatten_struct(sels[k][1])
+    if exact: return None
+    cid = case['id']
+    got, el_to_sel, _ = c04_observed(line, case)
+    flat = SPEC_FLAT.get(cid, {})
+    for loc, ids in flat.items():
+        if loc == 'error': return None
+        if (k in ids) != (k in got.get(loc, [])): return None
+    return 'NotCompoundArg'
